@@ -574,7 +574,7 @@ def replay(ctx, data):
         reentrant_sample(ctx, 40)
         ctx.coverage["rule"] = "replay: re-entrant edit sample"
         return
-    if case.get("mode") == "async" and any(n["kind"] in ASYNC_KINDS for n in case["nodes"]):
+    if case.get("mode") == "async" and any(n["kind"] in ASYNC_KINDS + ["zipmax"] for n in case["nodes"]):
         from .. import asynccheck as ac
         ac.evaluate(ctx, case, ac.rerun(case), ["lossless"], ASYNC_SIGS)
     else:
